@@ -87,7 +87,7 @@ def gen_case(rng):
             "fault": fault, "exc": rng.randrange(len(EXCS)), "agent": rng.choice(["A", "B", "Ünï"]), "turn": rng.choice([0, 0, 1, 7, 12, "0", "t7"]),
             "text": rng.choice(["hello world", "moon river cat", "", "!!!", "tree " * 50, "moon\u00a0river\u3000cat\u2003tree"]), "completion": rng.choice(["short summary", "multi\nline\tcompletion with   spaces", "w " * 400, "ünï ✓"]),
             "clock2": {"pc_step": rng.choice([0.0, 1e-6]), "wall": rng.choice([1.0e9, 3.0e9]), "tz": rng.choice([None, "JST-9", "PST8PDT", "UTC0", "NST3:30"])},
-            "now_ms_float": rng.random() < 0.2}
+            "now_ms_float": rng.random() < 0.2, "timeout_over_ms": rng.choice([500.0, 500.0, 0.25, 0.375, 0.01, 0.49, 1.0])}
 
 
 def expected_id(agent, turn, slot, text):
@@ -188,7 +188,10 @@ def run_once(case, allow, fixture_lines, sess, vclock=None, record_key=None, the
             # case is about the timeout (real elapsed time may exceed a 1 ms budget on a loaded machine)
             vc = vclock if vclock is not None else VClock(pc_step=0.0)
             if fault == "timeout":
-                vc = VClock(pc_step=float(cfg["scheduler"]["budgets"]["time_ms_reflection"]) / 1000.0 + 0.5)
+                # the reflection costs more than its budget on the virtual clock: by half a second, or by a fraction of a
+                # millisecond (any overrun is a timeout)
+                over = case.get("timeout_over_ms", 500.0)
+                vc = VClock(pc_step=(float(cfg["scheduler"]["budgets"]["time_ms_reflection"]) + over) / 1000.0)
             extra = {"_dry_run_until_t4": True} if case["dry_run"] else None
             plan = {"ops": [{"kind": "Speak", "max_tokens": cfg["t3"]["tokens"]}, {"kind": "EditGraph"}], "deltas": [["node", "n:a", "weight", 0.2, 1]],
                     "reflection": case["plan_flag"] and case.get("flag_via", "plan") == "plan"}
